@@ -31,7 +31,7 @@ fn same_entry(a: Option<&DumpItem>, b: Option<&DumpItem>) -> bool {
 }
 
 fn v(clause: &'static str, detail: String) -> Viol {
-    Viol { clause, detail }
+    Viol { clause, detail, tag: String::new() }
 }
 
 fn gone_clause(st: &KeyState) -> &'static str {
@@ -296,9 +296,18 @@ impl Model {
                 changed.push(k.to_vec());
             }
         }
+        // is there real memory pressure? (records stored before + the record being written > limit)
+        let pressure = match self.mem_limit {
+            Some(l) => {
+                let before: u64 = c.before.iter().map(|d| d.size()).sum();
+                let written = addressed.and_then(|k| entry(c.after, k)).map(|d| d.size()).unwrap_or(0);
+                before + written > l
+            }
+            None => false,
+        };
         for k in lost {
             let live = matches!(&self.key_info(&k).st, KeyState::Item(it) if self.now < it.upper);
-            if self.evict == Evict::Generous && live {
+            if self.evict == Evict::Generous && live && !pressure {
                 out.push(v(
                     "live-item-lost",
                     format!("{} evicted live item {} although the limit is far away", c.cmd.short(), wire::show(&k)),
